@@ -576,7 +576,13 @@ def gen_vspec_case(rng):
   g = tv.SpecGen(rng)
   d = g.spec(rng.randint(0, 3))
   probes = g.boundary(d)[:10] + [['N'], ['M']]
-  return {'kind': 'vspec', 'desc': d, 'probes': probes}
+  case = {'kind': 'vspec', 'desc': d, 'probes': probes}
+  if rng.chance(0.15):
+    # malformed stream: one top-level mutation of the JSON the spec produces
+    case['mutate'] = rng.choice([['add', 'foo'], ['add', 'size_'], ['drop', 'element_value'],
+                                 ['drop', 'element_values'], ['drop', 'values'], ['drop', 'candidates'],
+                                 ['drop', 't'], ['drop', 'default']])
+  return case
 
 
 def stale_mask(ops):
@@ -1219,6 +1225,14 @@ class _Impl:
                                       (T.StrKey(), T.Any())]),
     }[case['extra']]()
 
+  def vspec_mutated(self, j, m):
+    j = dict(j)
+    if m[0] == 'add':
+      j[m[1]] = 1
+    else:
+      j.pop(m[1], None)
+    return j
+
   def vspec_state(self, case):
     """(state wire, is it inside the model) of the spec / schema of a case; None if it cannot be built."""
     try:
@@ -1271,6 +1285,11 @@ class _Impl:
           if a != b:
             problems.append('[%s] apply(%s) differs: %s vs %s' % (form, json.dumps(pv)[:80], a, b))
             break
+    if case.get('mutate'):
+      jm = self.vspec_mutated(j['ok'], case['mutate'])
+      res = self.attempt(lambda: pg.from_json(json.loads(json.dumps(jm))))
+      model = {'rt': {'ok': wire(res['ok'])} if 'ok' in res else res}
+      return {'model': model, 'problems': [], 'kind': type(spec).__name__ + ':mutated'}
     return {'model': model, 'problems': problems, 'kind': type(spec).__name__,
             'empty_tuple': '"t": []' in json.dumps(wire(spec)),
             'empty_fixed_tuple': '["tuplef", []' in json.dumps(wire(spec))}
@@ -1705,6 +1724,10 @@ class C05(Prop):
       st = C05._impl.vspec_state(case)
       if st is None or not st[1]:
         return None
+      if case.get('mutate'):
+        im = C05._impl
+        j = im.attempt(lambda: im.jv_wire(im.vspec_mutated(im.pg.to_json(im.vspec_build(case)), case['mutate'])))
+        return {'op': 'vspec_load', 'json': j['ok']} if 'ok' in j else None
       return {'op': 'vspec', 'schema' if st[2] else 'spec': st[0]}
     if k == 'hstore':
       ops = []
